@@ -164,13 +164,54 @@ Example C10_known_last_token_witness :
   end.
 Proof. vm_compute. split; reflexivity. Qed.
 
-(* ---------------------------------------------------------------- partial: deletion / duplication for mol2
-   C10_delete_line_mol2 / C10_dup_line_mol2 (NOT proved as theorems):
-     forall bs ls ms i, m2wf_text' bs ls -> load_mol2_lines true atype btype ls = Ok ms -> i < length ls ->
-       (exists e, load_mol2_lines true atype btype (del_nth i ls) = Err e) \/
-       load_mol2_lines true atype btype (del_nth i ls) = Ok ms            (likewise dup_nth)
-   where m2wf_text' adds: the name line is not a list of integers and not a TRIPOS record, mol_type is not a list of
-   integers.  The 22 line positions of a block were analysed by hand (see DESIGN notes in the final report); on the
-   implementation they are exercised by the correspondence shards (every line of every small base text) and judged
-   by the Python oracle.  What IS proved for mol2: counts on every input, round trip and every line-boundary
-   truncation of every well-formed text. *)
+(* ---------------------------------------------------------------- one line deleted / duplicated (mol2) *)
+(* m2wfs_text = m2wf_text plus what makes a shifted line unmistakable: the name line is not a TRIPOS record and
+   not a list of integers, mol_type is not a list of integers, the charge-type line is neither a record nor "****",
+   record lines are not blank/comment/TRIPOS lines, section records have fewer than 4 tokens, and a blank/comment
+   line in front of a molecule can never be taken for a bond record (see C10_mol2_wfs_nonvacuous: all of this holds
+   for the text molli writes).  Result: an exception, or exactly the molecules of the undamaged text. *)
+Theorem C10_delete_line_mol2 : forall atype btype bs ls ms i,
+  m2wfs_text bs ls -> load_mol2_lines true atype btype ls = Ok ms -> (i < List.length ls)%nat ->
+  (exists e, load_mol2_lines true atype btype (del_nth i ls) = Err e) \/ load_mol2_lines true atype btype (del_nth i ls) = Ok ms.
+Proof. exact load_mol2_deleted. Qed.
+Print Assumptions C10_delete_line_mol2.
+Theorem C10_dup_line_mol2 : forall atype btype bs ls ms i,
+  m2wfs_text bs ls -> load_mol2_lines true atype btype ls = Ok ms -> (i < List.length ls)%nat ->
+  (exists e, load_mol2_lines true atype btype (dup_nth i ls) = Err e) \/ load_mol2_lines true atype btype (dup_nth i ls) = Ok ms.
+Proof. exact load_mol2_duplicated. Qed.
+Print Assumptions C10_dup_line_mol2.
+(* at block level the three possible outcomes are: exception / the same blocks up to the (unobserved) charge-type
+   field / a block holding a record that the conversion layer is bound to refuse *)
+Theorem C10_delete_line_mol2_blocks : forall bs ls i, m2wfs_text bs ls -> (i < List.length ls)%nat ->
+  damaged_result (read_mol2 true (del_nth i ls)) bs.
+Proof. exact read_mol2_deleted. Qed.
+
+Example C10_mol2_wfs_nonvacuous : exists bs, m2wfs_text bs (ex_mol2 ++ ex_mol2) /\ List.length bs = 2%nat.
+Proof.
+  assert (H : exists b, m2wfs b ex_mol2).
+  { eexists. unfold ex_mol2. cbn [map].
+    eapply (m2wfs_intro [_] _ _ _ _ _ _ _ [_; _] _ [_]).
+    - constructor; [right; eexists; vm_compute; reflexivity|constructor].
+    - do 2 eexists. repeat split; vm_compute; reflexivity.
+    - vm_compute. reflexivity.
+    - split; vm_compute; reflexivity.
+    - do 2 eexists. repeat split; vm_compute; reflexivity.
+    - instantiate (1 := [_; _]). reflexivity.
+    - constructor; [split; [reflexivity|vm_compute; lia]|constructor; [split; [reflexivity|vm_compute; lia]|constructor]].
+    - do 2 eexists. repeat split; vm_compute; reflexivity.
+    - instantiate (1 := [_]). reflexivity.
+    - constructor; [split; [reflexivity|vm_compute; lia]|constructor].
+    - constructor; [right; intros btype n; eexists; vm_compute; reflexivity|constructor].
+    - vm_compute. lia.
+    - vm_compute. reflexivity.
+    - intros n c. eexists. vm_compute. reflexivity.
+    - do 2 eexists. repeat split; vm_compute; reflexivity.
+    - intros n c. eexists. vm_compute. reflexivity.
+    - split; vm_compute; reflexivity.
+    - vm_compute. lia.
+    - vm_compute. lia.
+    - repeat (constructor; [do 2 eexists; repeat split; vm_compute; reflexivity|]). constructor.
+    - repeat (constructor; [do 2 eexists; repeat split; vm_compute; reflexivity|]). constructor. }
+  destruct H as [b Hb]. exists [b; b]. split; [|reflexivity].
+  rewrite <- (app_nil_r (ex_mol2 ++ ex_mol2)), <- app_assoc. repeat constructor; assumption.
+Qed.
